@@ -229,6 +229,30 @@ func c10Sequence(c *Ctx, kind string, keys []string, seqIdx int) {
 			return
 		}
 	}
+	// deterministic (first sequence of every backend): copies whose SOURCE bucket is a name of the
+	// backend's own storage or an alias of it ("." / ".." / "bk1/.." would reach the directory that
+	// holds the buckets) — they name no bucket and must be refused, whatever the source key
+	if seqIdx == 0 {
+		for _, sb := range []string{".", "..", "_meta", "metadata", "buckets", "bk2/..", "bk1/../bk2", "./bk2"} {
+			for _, sk := range []string{"bk2/secret", "secret", "bucket/bk1", "bk1/k", "k"} {
+				before := takeSnap(r, buckets)
+				line, obs := r.Copy(sb, sk, buckets[0], "stolen", nil)
+				after := takeSnap(r, buckets)
+				c.R.Evaluations++
+				refused := strings.HasPrefix(obs, "err ") || strings.HasPrefix(obs, "status ")
+				if !refused {
+					c.mismatch(Mismatch{Kind: "spec", Backend: kind, Case: append(append([]string{}, r.Lines...), line), Impl: trunc(obs, 120),
+						Spec: fmt.Sprintf("copy source %q names no bucket of the store: refused", sb+"/"+sk), Finger: "c10:internal-addressable:copy-source"})
+					return
+				}
+				if v := frameViolations(before, after, map[string]bool{}, ""); len(v) > 0 {
+					c.mismatch(Mismatch{Kind: "spec", Backend: kind, Case: append(append([]string{}, r.Lines...), line), Impl: obs + " ; " + strings.Join(v, " ; "),
+						Spec: "a refused copy changes nothing", Finger: "c10:frame:copy-from-internal"})
+					return
+				}
+			}
+		}
+	}
 	n := 12 + c.Rng.Intn(14)
 	for i := 0; i < n; i++ {
 		b := buckets[c.Rng.Intn(len(buckets))]
